@@ -443,6 +443,12 @@ func (t *ValueSet) result(r Result) Result {
 	// any pointers. We know this to be true already since we analyzed the
 	// function earlier.
 	if !t.lifted() {
+		// Work on a copy of the outputs: r.out may be the memoized result
+		// of a FuncOnce function, which must stay as the function returned it.
+		out := make([]reflect.Value, len(r.out))
+		copy(out, r.out)
+		r.out = out
+
 		for i := uint8(0); i < t.structPointers; i++ {
 			r.out[0] = r.out[0].Elem()
 		}
